@@ -548,6 +548,17 @@ static void run_history(vfh::Reporter &R, long seed, long shard, long h, const s
   vfh::Rng r((uint64_t)seed * 1000003ULL + (uint64_t)shard * 7919ULL + (uint64_t)h * 104729ULL + 17);
   std::string file = dir + "/h" + std::to_string(shard) + "_" + std::to_string(h) + ".hdf5";
   fs::remove(file);
+  // an existing checkpoint may also be reached through a symbolic link (e.g. current.hdf5 -> state.hdf5)
+  std::string link = file + ".lnk";
+  fs::remove(link);
+  auto name_for = [&](bool file_exists) -> std::string {
+    if (!file_exists || !r.coin(0.3)) return file;
+    std::error_code ec;
+    if (!fs::is_symlink(link)) fs::create_symlink(fs::path(file).filename(), link, ec);
+    if (ec) return file;
+    R.counter("sessions_opened_through_a_symbolic_link");
+    return link;
+  };
   std::vector<Entry> ledger;
   std::vector<std::string> ops;  // op log for the witness
   J id;
@@ -582,7 +593,8 @@ static void run_history(vfh::Reporter &R, long seed, long shard, long h, const s
         lvl = CheckpointAccessLevel::CREATE;
         truncated = true;
       }
-      CheckpointFile f = (lvl == CheckpointAccessLevel::MODIFY && r.coin()) ? CheckpointFile(file) : CheckpointFile(file, lvl);
+      std::string fname = name_for(s > 0 && lvl == CheckpointAccessLevel::MODIFY);
+      CheckpointFile f = (lvl == CheckpointAccessLevel::MODIFY && r.coin()) ? CheckpointFile(fname) : CheckpointFile(fname, lvl);
       long nw = r.range(1, 14);
       for (long k = 0; k < nw; ++k) {
         bool overwrite = !ledger.empty() && r.coin(0.3);
@@ -618,7 +630,7 @@ static void run_history(vfh::Reporter &R, long seed, long shard, long h, const s
     {
       bool ro = r.coin(0.7);
       R.counter(ro ? "read_sessions_READ_level" : "read_sessions_MODIFY_level");
-      CheckpointFile f(file, ro ? CheckpointAccessLevel::READ : CheckpointAccessLevel::MODIFY);
+      CheckpointFile f(name_for(true), ro ? CheckpointAccessLevel::READ : CheckpointAccessLevel::MODIFY);
       std::vector<size_t> order(ledger.size());
       for (size_t k = 0; k < order.size(); ++k) order[k] = k;
       for (size_t k = order.size(); k > 1; --k) std::swap(order[k - 1], order[r.range(0, (long)k - 1)]);
@@ -741,6 +753,7 @@ static void run_history(vfh::Reporter &R, long seed, long shard, long h, const s
   }
   if (nontrivial) R.nontrivial(hh);
   R.counter("histories");
+  fs::remove(link);
   fs::remove(file);
 }
 
